@@ -3,10 +3,11 @@ CONSTANTS
   Alphabet = {97, 10}
   MaxStream = 4
   MaxChunk = 2
-  ReadIds = {1, 3, 4, 7, 10, 11, 13, 19}
+  ReadIds = {1, 3, 4, 7, 10, 11, 13, 19, 23}
   WriteLens = {}
   MaxWrites = 0
   Grants = {}
+  MaxCredit = 12
   Mwbs = {0}
   Ccs = {1}
   Conns = {0}
